@@ -68,6 +68,33 @@ CHECKS = {
         note="Names/descriptions without TAB/CR/LF/'|' and without leading/trailing whitespace (format domain); fields a flavour cannot carry at that flavour's "
              "default; required fields carry a value (parent_id=None out of domain); dates at whole seconds, TZ=UTC; floats NaN-free and f32-exact; animation "
              "and mesh models are the parse of a reference wire image; Transfer sender packets follow the simulator (1000-byte chunks); UDP codec trusted."),
+    "C03": dict(
+        category="exploration", design_ref="DESIGN.md §4 C03",
+        technique="bounded-exhaustive input enumeration over small byte alphabets plus parametric boundary families, differential against a reference zero-code model",
+        text="All strings over {00,01,FF} up to length 12 (quick 10) through compress->expand, every zero-run length 0..1100 in 9 left/right contexts incl. "
+             "wrap-form tokens, all decoder inputs over {00,01,02,FF} up to length 8 (quick 7), every reference length around the 0x3000 cap with 13 tail-token "
+             "shapes, and adversarial expansion families with allocation tracing, each checked against an independent plain-Python statement of the format "
+             "(round trip, canonical output, decoder == reference, cap refusal, bounded allocation).",
+        note="hmc.refwire zero-code reference trusted (self-checked against six format vectors); between cap and cap+512 the decoder may refuse or return the exact "
+             "expansion (it checks per input byte); 'without bound' = tracemalloc peak below 8*cap; header peek covered in C01/C02; no sampled general strings."),
+    "C10": dict(
+        category="exploration", design_ref="DESIGN.md §4 C10",
+        technique="instance discovery by walking live objects from the registry/templates/llanim/mesh + exhaustive sweep of the 8/16-bit wire domain per instance",
+        text="Every quantiser / fixed-point instance reachable from the subfield registry, templates, llanim and mesh (95 instances, 21 parameterisations) is swept "
+             "over every raw value of its wire type through decode/encode and through the reader/writer path in both byte orders; key-frame times over all 65536 "
+             "raws x 41 (quick) / 1026 (thorough) durations; the numpy variant over the full arange. Clauses: inverse, monotonic, endpoints, exact zero.",
+        note="Quantisers constructed lazily inside function bodies are not seen by the walk; classes overriding the quantisation arithmetic are held to inverse, "
+             "monotonic and the lower end only; duration 0.0 checked for totality only; two open known findings (PackedTERotation raw -32768, mesh normals have no exact zero)."),
+    "C13": dict(
+        category="exploration", design_ref="DESIGN.md §4 C13",
+        technique="bounded-exhaustive differential enumeration: all 2^11 section-flag combinations x object kinds, per-section content variants, and byte mutations "
+                  "of representative payloads through both decoders",
+        text="Every one of the 2^11 section-flag combinations x 6 object kinds, 91 per-section content variants under all (thorough) or a covering set of (quick) "
+             "enabling flag combinations, and every single-byte substitution (255; quick 5), truncation and one-byte extension of 32 representative payloads are "
+             "decoded by the hand-optimised reader and by the declarative template and compared field by field; the template re-encoding is compared byte for byte; "
+             "the tracker's normalisation is compared with a plain-Python reference on the network and the cache-file path.",
+        note="Domain = what the template's own serialize emits plus byte mutations of it; a mutated payload is judged only if the template decodes it and re-encodes "
+             "it to itself; PCodes outside the enum are counted, not asserted; enums by value, dataclasses by fields, lazy proxies forced, floats bit-exact."),
 }
 
 PENDING_REASON = "check not built yet (build in progress; will be claimed once its harness exists)"
